@@ -34,6 +34,19 @@ static void lwe_cases(int K) {
     sample("lwe/n=9/M=17/alpha=5(=1/(20*17))/seed=0: all 17 messages, lweSymDecrypt(lweSymEncrypt(m/17)) == m/17 exactly");
 }
 
+// every message of large message spaces, through the decryption's rounding alone: a noiseless trivial sample of m/Msize must decrypt to exactly
+// its encoding for ALL m (the rounding constants of encoder and decoder have to agree for every m, not only for small or boundary ones)
+static void all_messages_cases() {
+    for (int M : {65537, 100003, 1000000, 1000003, 1234567, 1 << 20, 3 << 18, 32767, 40000}) {
+        std::string key = fmt("all-messages/M=%d", M); if (!take(key)) continue; if (deadline()) return; current(key);
+        LweParams *p = new_LweParams(2, 0., 0.25); LweKey *sk = new_LweKey(p); sk->key[0] = 1; sk->key[1] = 0; LweSample *c = new_LweSample(p); bool ok = true;
+        for (int m = 0; m < M && ok; m++) { Torus32 mu = modSwitchToTorus32(m, M); lweNoiselessTrivial(c, mu, p); Torus32 d = lweSymDecrypt(c, sk, M);
+            if (d != mu) { violation(key, fmt("trivial LWE sample of %d/%d (0x%08x) decrypts to 0x%08x", m, M, (uint32_t)mu, (uint32_t)d)); ok = false; } }
+        eval(M); nontrivial(M); outcome(mix(M, 0xA11)); delete_LweSample(c); delete_LweKey(sk); delete_LweParams(p);
+    }
+    sample("all-messages/M=1000003: every m in [0,M): lweSymDecrypt(trivial sample of m/M) == modSwitchToTorus32(m, M)");
+}
+
 static void tlwe_cases(int K) {
     const int N = 1024;
     for (int kk : {1, 2, 3, 4}) for (int M : MS) for (int ai = 0; ai < 6; ai++) for (int k = 0; k < K; k++) {
@@ -184,6 +197,6 @@ static void gate_cases(int K) {
 int main(int argc, char **argv) {
     init(argc, argv);
     int K = (int)opti("K", quick() ? 1 : 4);
-    lwe_cases(K); tlwe_cases(K); tgsw_cases(K); history_cases(); trivial_cases(K); gate_cases(K);
+    lwe_cases(K); all_messages_cases(); tlwe_cases(K); tgsw_cases(K); history_cases(); trivial_cases(K); gate_cases(K);
     return finish();
 }
